@@ -13,7 +13,7 @@ RULE = ('Hypothesis: 2..4 real threads x 1..3 transactions each on ONE shared cl
         'transaction (thorough: also 2 x 2 and 3 x 1). Oracle over the transport event log: (a) from a transaction\'s first '
         'send until its call returns no other thread performs a transport operation; (b) every written frame is one whole '
         'frame; (c) each call returns the reply that is the unique function of ITS request; (d) every thread finishes (no '
-        'deadlock / lost wake-up). Non-trivial: the schedule made some thread wait for the lock; distinct by SHA-1.')
+        'deadlock / lost wake-up). Non-trivial: the schedule made some thread wait for the lock; distinct by SHA-1. A fixed scenario without the scheduler covers a caller that is born (thread created) while another caller\'s transaction is between its send and its receive; the UDP client is driven too.')
 ASSUMPTIONS = ['pre-emption happens only at transport operations and lock acquisitions, as the property states (not between arbitrary bytecodes)',
                'which code is protected is decided solely by the with-statement in pymodbus; the harness lock only makes waiting visible']
 BUDGET = {'quick': 2500, 'thorough': 10000}
